@@ -114,7 +114,9 @@ type FnGen struct {
 	ownAllocs map[string][]ownAlloc // type name -> objects allocated here (invariant not yet assumed)
 	dirty     map[string][]Val    // type name -> pre-existing objects whose invariant fields were written
 
-	obNames map[string]int
+	obNames   map[string]int
+	cellVars  map[string]Val // source variables that live in heap cells (captured by closures)
+	allAllocs []string
 	covers  []*Cover
 
 	parent      *FnGen // non-nil while symbolically executing an inlined callee
@@ -682,8 +684,20 @@ func (g *FnGen) nameSites() {
 		counts[label]++
 		g.siteNames[ins] = fmt.Sprintf("%s#%d", label, counts[label])
 	}
+	// ordinals follow source order (position), not SSA block order
+	var all []ssa.Instruction
 	for _, b := range g.fn.Blocks {
-		for _, ins := range b.Instrs {
+		all = append(all, b.Instrs...)
+	}
+	sort.SliceStable(all, func(i, j int) bool {
+		pi, pj := all[i].Pos(), all[j].Pos()
+		if !pi.IsValid() || !pj.IsValid() {
+			return false
+		}
+		return pi < pj
+	})
+	for _, blk := range [][]ssa.Instruction{all} {
+		for _, ins := range blk {
 			switch x := ins.(type) {
 			case *ssa.IndexAddr, *ssa.Index:
 				nm(ins, "index")
